@@ -300,7 +300,7 @@ example (s : List Nat)
       = [112, 108, 97, 110, 101, 116] := by decide +kernel
   have key := fun s v hq hfin hed =>
     C04_single_edit_found_tokenized_src exSorter exSorter_ok toyU Gen.lang_en toyStem toyU_facts tablesOK_en
-      (fun _ => toyStem_bounded _) pOps hops (by decide +kernel) 0
+      (toyStemHyp _ (by decide)) pOps hops (by decide +kernel) 0
       { ix := 0, id := 7, title := tokenizeRecord Gen.srcProg exEnv [66, 108, 117, 101, 32, 112, 108, 97, 110, 101, 116],
         rating := 3 }
       (by decide +kernel) s v hq hfin pWord (by decide +kernel) (by decide) (by rw [hwc]; decide) hed
